@@ -1,7 +1,7 @@
 (* Validation runner for the fill properties (C01, C02 system level, C03, C06): the polygonal outline
    and the triangles the real tessellator produced, decided by the region comparator. *)
 From Coq Require Import QArith.
-From LV Require Import Base.Prelude Model.Bezier Model.Winding Checker.Region.
+From LV Require Import Base.Prelude Model.Bezier Model.Winding Checker.Region Checker.Slab.
 Open Scope Q_scope.
 
 Record rcase := mkRC {
@@ -42,3 +42,20 @@ Definition bad_cases := coverage_cases.
 (* C02: (id, -1, the doubly covered point) *)
 Definition overlap_bad_cases (cs : list rcase) : list (Z * Z * list ((Z * Z) * (Z * Z))) :=
   map (fun r => (fst r, (-1)%Z, snd r)) (overlap_cases cs).
+
+(* ---- the whole plane (Checker/Slab.v, C01_plane_sound): for the small cases handed over, lines at every event
+   ordinate (vertex and crossing ordinates, computed exactly here) and slabs between them.  The result lists the
+   cases that could NOT be decided on the whole plane (never an alarm: violations are reported by the line check);
+   every case not listed has the property at every point of the plane. *)
+Definition plane_undecided (cs : list rcase) : list Z :=
+  flat_map (fun c =>
+    if check_plane (rule_of (rc_rule c)) (rc_tol2 c) (rc_edges c) (rc_tris c) (event_ys (rc_edges c) (rc_tris c))
+    then [] else [rc_id c]) cs.
+
+(* "covered at most once" at every point strictly between event ordinates (C01_slab_overlap_sound) *)
+Definition plane_overlap_undecided (cs : list rcase) : list Z :=
+  flat_map (fun c =>
+    let ys := event_ys (rc_edges c) (rc_tris c) in
+    if sorted_strict ys && covers_vertices ys (all_edges (rc_edges c) (rc_tris c))
+       && slabs_ok (check_slab_overlap (rc_tol2 c) (rc_edges c) (rc_tris c)) ys
+    then [] else [rc_id c]) cs.
